@@ -5,7 +5,7 @@ from pyvc.solve import discharge
 
 def main(prop, only=None):
     mod = importlib.import_module(f"contracts.{prop}")
-    for c in mod.CONTRACTS:
+    for c in (list(mod.CONTRACTS) + (list(mod.extra_contracts()) if hasattr(mod, 'extra_contracts') else [])):
         if only and only not in c.name:
             continue
         eng = Engine()
